@@ -62,6 +62,22 @@ def _run_conv(desc):
 
     def bad(what, detail=None):
         sh.violation(what, case, detail or {})
+    # no conversion may modify the arrays it is given
+    keep = [a.copy() for a in (sx, sy, om, so, co)]
+    dty1 = np.full(sx.shape, 3.0 * ystep)
+    lx1, ly1 = G.sample_to_lab(sx, sy, y0, dty1, om)
+    lkeep = (lx1.copy(), ly1.copy(), dty1.copy())
+    for fn in (lambda: G.lab_to_sample(lx1, ly1, y0, dty1, om), lambda: G.lab_to_sample_sincos(lx1, ly1, y0, dty1, so, co),
+               lambda: G.lab_to_step(lx1, ly1, y0, dty1, om, ystep), lambda: G.lab_to_recon(lx1, ly1, y0, dty1, om, (41, 41), ystep),
+               lambda: G.sample_to_lab(sx, sy, y0, dty1, om), lambda: G.sample_to_lab_sincos(sx, sy, y0, dty1, so, co),
+               lambda: G.sample_to_step(sx, sy, ystep), lambda: G.sample_to_recon(sx, sy, (41, 41), ystep),
+               lambda: G.dty_values_grain_in_beam(sx, sy, y0, om), lambda: G.step_to_recon(sx, sy, (41, 41)), lambda: G.recon_to_sample(sx, sy, (41, 41), ystep)):
+        fn()
+        if not (all(np.array_equal(a, b) for a, b in zip((sx, sy, om, so, co), keep)) and np.array_equal(lx1, lkeep[0]) and
+                np.array_equal(ly1, lkeep[1]) and np.array_equal(dty1, lkeep[2])):
+            bad("conversion-modifies-its-input-arrays")
+            sx, sy, om, so, co = [a.copy() for a in keep]
+            lx1, ly1, dty1 = [a.copy() for a in lkeep]
     for dty_off in (0.0, 3.0 * ystep, -7.25 * ystep):
         dty = np.full(sx.shape, dty_off)
         lx, ly = G.sample_to_lab(sx, sy, y0, dty, om)
